@@ -340,8 +340,11 @@ package nbs
 
 //@ extern (github.com/dolthub/dolt/go/store/nbs.tableIndex).entrySuffixMatches as verif_x_tableIndex_entrySuffixMatches
 //@   modifies nothing
+//@   ghost_set verif_ghost.tMatched = m
+//@   ghost_set verif_ghost.tMatchIdx = idx
 //@ extern (github.com/dolthub/dolt/go/store/nbs.tableIndex).indexEntry as verif_x_tableIndex_indexEntry
 //@   requires a == nil
+//@   requires verif_ghost.tMatched && idx == verif_ghost.tMatchIdx
 //@   modifies nothing
 
 // findOffsets: on the normal return every request is either marked found or |remaining| is reported, so the
